@@ -260,7 +260,13 @@ func checkBindings(c *evalCase) (msg string, info evalInfo) {
 	extra.Stmts = append(extra.Stmts, &gen.Let{Name: gen.Ident{Name: "k"}, X: &gen.Unary{Op: "-", X: &gen.Num{Text: "7"}}}, &gen.Let{Name: gen.Ident{Name: "a1"}, X: &gen.Str{Value: "late"}},
 		// lets after the query may build on each other like any others
 		&gen.Let{Name: gen.Ident{Name: "zz_late1"}, X: &gen.Num{Text: "1"}}, &gen.Let{Name: gen.Ident{Name: "zz_late2"}, X: &gen.Binary{Op: "+", X: gen.ID("zz_late1"), Y: &gen.Num{Text: "1"}}})
-	params2 := map[string]paramVal{"zz_unused_param": {Snippet: "{zz_unused_param: UInt8}", Value: 1}}
+	params2 := map[string]paramVal{"zz_unused_param": {Snippet: "{zz_unused_param: UInt8}", Value: 1},
+		// names no single identifier can spell: they can never be used
+		"$left.k": {Snippet: "41", Value: 41}, "$right.k": {Snippet: "42", Value: 42}, "A.k": {Snippet: "43", Value: 43}, "k.k": {Snippet: "44", Value: 44}, "a1.": {Snippet: "45", Value: 45}, "n1 ": {Snippet: "46", Value: 46}}
+	extra.Stmts = append([]gen.Stmt{
+		&gen.Let{Name: gen.Ident{Name: "$left.a1", Quoted: true}, X: &gen.Num{Text: "47"}},
+		&gen.Let{Name: gen.Ident{Name: "B.k", Quoted: true}, X: &gen.Num{Text: "48"}},
+	}, extra.Stmts...)
 	for n, p := range c.Params {
 		params2[n] = p
 	}
@@ -282,6 +288,83 @@ func init() {
 		}
 		return msg
 	})
+}
+
+type manyUsesCase struct {
+	Kind string `json:"kind"`
+	Uses int    `json:"uses"`
+}
+
+// checkManyUses: a binding used n times in one flat query denotes its value
+// every time; the SQL equals that of the query with the value written out.
+func checkManyUses(c manyUsesCase) string {
+	n := c.Uses
+	list := func(item string, n int) string { return strings.TrimSuffix(strings.Repeat(item+", ", n), ", ") }
+	var src string
+	var opts *pql.CompileOptions
+	var want callResult
+	switch c.Kind {
+	case "let":
+		src = "let n = 1; T | where x in (" + list("n", n) + ") | take n"
+		want = safeCompile("T | where x in ("+list("1", n)+") | take 1", nil)
+	case "parameter":
+		src = "T | where x in (" + list("p", n) + ")"
+		opts = &pql.CompileOptions{Parameters: map[string]string{"p": "{p: Int32}"}}
+		want = safeCompile("T | where x in ("+list("zz_col", n)+")", nil)
+		want.SQL = strings.ReplaceAll(want.SQL, "\"zz_col\"", "{p: Int32}")
+	default:
+		src = "let n = 2; T | where a > n | extend s = strcat(" + list("n", n/2+1) + ") | where b in (" + list("n", n/2+1) + ") | take n"
+		want = safeCompile("T | where a > 2 | extend s = strcat("+list("2", n/2+1)+") | where b in ("+list("2", n/2+1)+") | take 2", nil)
+	}
+	r := safeCompile(src, opts)
+	switch {
+	case r.Hung || r.Panic != "":
+		return "Compile hangs or panics"
+	case r.Err != nil:
+		return fmt.Sprintf("does not compile: %v", r.Err)
+	case want.Err == nil && r.SQL != want.SQL:
+		return fmt.Sprintf("the SQL differs from that of the query with the value written out (first difference at byte %d of %d)", firstDiff(r.SQL, want.SQL), len(want.SQL))
+	}
+	return ""
+}
+
+func init() {
+	replayers["manyuses"] = jsonReplayer(checkManyUses)
+}
+
+// TestC06ManyUses: a binding used hundreds to tens of thousands of times.
+func TestC06ManyUses(t *testing.T) {
+	st := harn.NewStats(env, "manyuses")
+	defer st.Flush()
+	sizes := []int{255, 256, 257, 4096, 65535, 65536, 65537, 70000}
+	if env.Thorough() {
+		sizes = append(sizes, 131073, 300000)
+	}
+	st.SetExhaustive(fmt.Sprintf("a let, a parameter and a let spread over several operators, each used n times for n in %v, compared with the same query with the value written out", sizes))
+	for i, n := range sizes {
+		if i%env.NShards != env.Shard {
+			continue
+		}
+		for _, kind := range []string{"let", "parameter", "spread"} {
+			c := manyUsesCase{Kind: kind, Uses: n}
+			st.Eval()
+			st.NonTrivialExact(1)
+			st.Class(kind)
+			if msg := checkManyUses(c); msg != "" {
+				st.Violation(t, "C06", "manyuses", c, "a %s used %d times in one query: %s", kind, n, msg)
+				return
+			}
+		}
+	}
+}
+
+func firstDiff(a, b string) int {
+	for i := 0; i < len(a) && i < len(b); i++ {
+		if a[i] != b[i] {
+			return i
+		}
+	}
+	return min(len(a), len(b))
 }
 
 func TestC06Bindings(t *testing.T) {
